@@ -56,3 +56,55 @@ func refShortest(arg uint64, used int) bool {
 	}
 	return used == 9
 }
+
+// refUTF8 is the well-formedness predicate of Unicode 15 Table 3-7, written independently of unicode/utf8.
+func refUTF8(b []byte) bool {
+	i := 0
+	for i < len(b) {
+		c := b[i]
+		switch {
+		case c <= 0x7F:
+			i++
+		case c >= 0xC2 && c <= 0xDF:
+			if i+1 >= len(b) || !cont(b[i+1], 0x80, 0xBF) {
+				return false
+			}
+			i += 2
+		case c >= 0xE0 && c <= 0xEF:
+			if i+2 >= len(b) {
+				return false
+			}
+			lo, hi := byte(0x80), byte(0xBF)
+			if c == 0xE0 {
+				lo = 0xA0
+			}
+			if c == 0xED {
+				hi = 0x9F
+			}
+			if !cont(b[i+1], lo, hi) || !cont(b[i+2], 0x80, 0xBF) {
+				return false
+			}
+			i += 3
+		case c >= 0xF0 && c <= 0xF4:
+			if i+3 >= len(b) {
+				return false
+			}
+			lo, hi := byte(0x80), byte(0xBF)
+			if c == 0xF0 {
+				lo = 0x90
+			}
+			if c == 0xF4 {
+				hi = 0x8F
+			}
+			if !cont(b[i+1], lo, hi) || !cont(b[i+2], 0x80, 0xBF) || !cont(b[i+3], 0x80, 0xBF) {
+				return false
+			}
+			i += 4
+		default:
+			return false
+		}
+	}
+	return true
+}
+
+func cont(c, lo, hi byte) bool { return c >= lo && c <= hi }
